@@ -347,6 +347,9 @@ def stepScen (u : Unit) (fs : List String) : Unit × String :=
   -- member of its issuer set it is associated with and whatever is imported later; pagination returns every serial
   | ["scen", "equiv"] => (u, "cert:revoked|ocsp:revoked|crl:listed")
   | ["scen", "impiss"] => (u, "cert:revoked|crl:listed|other:kept")
+  -- an issuer whose certificate is not in the mount's certificate store (imported, with or without its key): its
+  -- revocation is recorded where every channel looks (`C16.revoked_reported_everywhere`)
+  | ["scen", "issrevimp", _how] => (u, "ok|cert:revoked|ocsp:revoked|crl:listed")
   | ["scen", "page", _limit] => (u, "all")
   | _ => (u, "bad-op")
 
